@@ -19,6 +19,8 @@ func init() {
 		}
 		return fns
 	}
+	addRule("C08", "endcellplain", 2, func(c *Ctx, r string) { ruleEndCellPlain(c, r, aligners(c, "SW", "SWAffine")) })
+	addRule("C09", "tracelayer", 2, func(c *Ctx, r string) { ruleTraceLayer(c, r, aligners(c, "NWAffine", "SWAffine", "FittedAffine")) })
 	addRule("C09", "nilalpha", 6, func(c *Ctx, r string) { ruleNilAlpha(c, r, entries(c)) })
 	addRule("C09", "repeatlen", 2, ruleRepeatLen)
 	addRule("C09", "seqbounds", 12, func(c *Ctx, r string) { ruleSeqBounds(c, r, aligners(c, all...)) })
@@ -48,7 +50,8 @@ func init() {
 		"C05": "strandflip: nothing a RevComp method that records a strand calls on the way writes a Strand field (Reverse sets None, after which the negation no longer is the opposite of the original strand).",
 		"C01": "reusedview: as C03.",
 		"C03": "reusedview: in a reader loop that truncates its line buffer to [:0] and refills it, no other byte slice carried to the next round is a view of that buffer (itself, a sub-slice, a bytes.Trim* result, an append onto it): the saved '@' label must be a copy, or the comparison with the '+' line compares the line with itself.",
-		"C09": "nilalpha: every method invoked on the result of an Alphabet() call in an aligner's entry point is dominated by a comparison that found that value non-nil. repeatlen: Letter.Repeat and QLetter.Repeat (the gap runs of Format) return the slice made with length count, never one grown by append. seqbounds: every subscript of the two sequence arguments of an aligner body, and every straight-line subscript of its table, whose position is a linear function of the two sequence lengths (inside a loop: in the first round, with the counters at their initial values) lies within bounds for all lengths, zero included, that pass the comparisons dominating it (decided exhaustively for lengths 0..5; the forms have unit coefficients). An aligner that reads rSeq[0], qSeq[len-1] or table[1] unconditionally panics on an empty sequence instead of returning pairs or an error.",
+		"C08": "endcellplain: the Smith-Waterman fills record the best end cell (score, row and column taken together) under comparisons of the cell's score only.",
+		"C09": "tracelayer: an affine traceback compares a cell of a variable layer with predecessor formulas only where the current layer has been tested (open finding on today's tree, see known_findings.txt). nilalpha: every method invoked on the result of an Alphabet() call in an aligner's entry point is dominated by a comparison that found that value non-nil. repeatlen: Letter.Repeat and QLetter.Repeat (the gap runs of Format) return the slice made with length count, never one grown by append. seqbounds: every subscript of the two sequence arguments of an aligner body, and every straight-line subscript of its table, whose position is a linear function of the two sequence lengths (inside a loop: in the first round, with the counters at their initial values) lies within bounds for all lengths, zero included, that pass the comparisons dominating it (decided exhaustively for lengths 0..5; the forms have unit coefficients). An aligner that reads rSeq[0], qSeq[len-1] or table[1] unconditionally panics on an empty sequence instead of returning pairs or an error.",
 	}
 	for id, s := range extra {
 		if p := props[id]; p != nil {
